@@ -864,11 +864,15 @@ func mainC10() {
 	r.Rule("real gopcua sender -> capturing TCP proxy -> real gopcua receiver; every history of n<=4 secured chunks (every composition of n into messages of 1..4 chunks) x {unmodified; a verbatim copy of chunk i inserted at every later position (thorough: every result of two such insertions); every swap of two adjacent chunks} x {Sign, SignAndEncrypt} x {client->server (server-kind receiver), server->client (client-kind receiver)} x policies; counted as non-trivial and distinct: (direction, policy, mode, history, delivered index sequence) of every modified history")
 	total := enumerateC10(thorough, func(int64, c10Case) {})
 	r.Set("cases_enumerated", total)
-	deaths := evid.Sharded(r, 4<<30, func(s evid.ShardInfo, w *evid.Run) {
+	deaths := evid.Sharded(r, 2<<30, func(s evid.ShardInfo, w *evid.Run) {
 		pl := &pool{prop: "C10"}
 		defer pl.close()
 		enumerateC10(thorough, func(idx int64, c c10Case) {
 			if !s.Mine(idx) {
+				return
+			}
+			if pl.tooManyDeaths(150) {
+				w.Capped("worker stopped after 150 executor deaths; the remaining cases of this shard were not run")
 				return
 			}
 			var o c10Obs
